@@ -7,6 +7,14 @@ BASELINE_OFF = ("cd /repo && cargo nextest run --workspace --no-fail-fast --test
 
 # id -> (level, technique, design_ref, text, note)
 CHECKS = {
+ "C06": ("exploration", "bounded exhaustive enumeration of presigned URLs x expiry values x clock instants x single-parameter mutations, differential against a reference verifier, on the real S3Service::call with an owned clock",
+         "DESIGN §4 C06",
+         "Every base URL (reference presigner, cross-checked with aws-sigv4's presigner) is replayed at server-clock instants on both sides of each window edge (+-1 s and +-1 ms) for 14 expiry spellings, and every single mutation / removal / duplication of every query parameter, signature digit, credential field, method, path byte and signed header is judged against the reference verifier. The window arithmetic and the coverage of the signature are finite-case questions once the clock is owned.",
+         "clock read through the verif-hooks seam; expiry values outside [1,604800] or in non-canonical spelling are recorded, not judged"),
+ "C11": ("exploration", "bounded exhaustive enumeration of V2-signed requests x single-component mutations x clock instants, differential against a reference V2 verifier, on the real S3Service::call",
+         "DESIGN §4 C11",
+         "Requests signed by a reference V2 signer (validated on the 4 documentation examples) over methods x paths x addressing style x every documented sub-resource x x-amz header shapes x Date/x-amz-date x header|presigned; each with every single-component mutation of the string-to-sign inputs and Expires on both sides of the clock.",
+         "clock read through the verif-hooks seam; sub-resource list as documented today (torrent not in the grid)"),
  "C05": ("exploration", "bounded exhaustive enumeration of signed requests x single-component mutations, differential against a reference verifier, on the real S3Service::call",
          "DESIGN §4 C05",
          "A grid of honestly signed requests (5 methods x 15 paths x 10 query multisets x 8 signed-header shapes x payload/mode x HTTP/1.1|HTTP/2) times every applicable single-component mutation and 6 canonical-equivalent rewrites; every case runs through the real service and is compared with a reference verifier written from the AWS specification. Exhaustive over the stated grid: both directions of the iff (accept honest, reject every tampering) are decided per case.",
